@@ -189,36 +189,41 @@ def run_cbmc(cfile, entry, unwind, unwindset=(), timeout=900, mem_gb=12, extra=(
 
 
 def extract_nondet(trace_json):
-    """ordered values returned by nondet_* in a CBMC json trace"""
-    vals = []
+    """ordered values returned by nondet_* in a CBMC json trace (both --stop-on-fail and all-properties layouts)"""
     try:
         data = json.loads(trace_json)
     except Exception:
         return None, None
-    failed = None
+
+    def from_trace(tr):
+        vals = []
+        for st in tr:
+            if st.get('stepType') != 'assignment' or not re.fullmatch(r'nd_val_(u8|u16|u32|u64|bool)', st.get('lhs', '')):
+                continue
+            if not st.get('sourceLocation', {}).get('function', '').startswith('nondet_'):
+                continue   # static initialisation of the nd_val_* globals
+            v = st.get('value', {})
+            if 'binary' in v:
+                d = int(v['binary'], 2)
+            else:
+                d = v.get('data')
+                if d in ('TRUE', 'true'):
+                    d = 1
+                elif d in ('FALSE', 'false'):
+                    d = 0
+                else:
+                    d = int(re.sub(r'[^0-9-]', '', str(d)) or '0')
+            vals.append(int(d) & ((1 << 64) - 1))
+        return vals
+
     for item in data:
-        if not isinstance(item, dict) or 'result' not in item:
+        if not isinstance(item, dict):
             continue
-        for r in item['result']:
+        if 'trace' in item and item.get('status', '').lower() in ('failed', 'failure'):
+            return from_trace(item['trace']), item.get('description')
+        for r in item.get('result', []) if isinstance(item.get('result'), list) else []:
             if r.get('status') == 'FAILURE' and 'trace' in r:
-                failed = r.get('description')
-                vals = []
-                for st in r['trace']:
-                    if st.get('stepType') == 'assignment' and re.fullmatch(r'nd_val_(u8|u16|u32|u64|bool)', st.get('lhs', '')):
-                        v = st.get('value', {})
-                        d = v.get('data')
-                        if isinstance(d, str):
-                            if d in ('TRUE', 'true'):
-                                d = 1
-                            elif d in ('FALSE', 'false'):
-                                d = 0
-                            else:
-                                try:
-                                    d = int(d)
-                                except ValueError:
-                                    d = int(v.get('binary', '0'), 2)
-                        vals.append(int(d) & ((1 << 64) - 1))
-                return vals, failed
+                return from_trace(r['trace']), r.get('description')
     return None, None
 
 
@@ -278,7 +283,8 @@ def run_obligation(build, ob, tier, replay_dir, prop):
                     env = dict(os.environ, VERIF_REPLAY=vf)
                     rc, o, e, dt = sh([exe], timeout=60, env=env)
                     native_fail = [l[len('ASSERTION-FAILED: '):] for l in o.splitlines() if l.startswith('ASSERTION-FAILED: ')]
-                    r['replay'] = {'native_rc': rc, 'native_failed': native_fail[:5], 'reproduced': bool(native_fail) or rc not in (0, 77)}
+                    r['replay'] = {'native_rc': rc, 'native_failed': native_fail[:5], 'reproduced': bool(native_fail) or rc not in (0, 77),
+                                   'native_output': o[-1500:]}
                     with open(rp, 'w') as f:
                         json.dump({'property': prop, 'obligation': ob.name, 'harness': ob.harness, 'entry': ob.entry, 'defines': defines,
                                    'nondet_values_in_call_order': vals, 'cbmc_failed': res['failed'][:10], 'native_replay': r['replay'],
